@@ -82,6 +82,7 @@ struct in_s {
 	uint8_t a_type[3], a_data[3][ADMAX];
 	uint8_t pw[PWMAX + 1];
 	uint8_t cx, cpos;
+	uint8_t dirty;	/* previous content of the caller's packet buffer (every byte), e.g. a re-used or stack buffer */
 };
 #include "verif_in.h"
 
@@ -155,6 +156,7 @@ static int ref_len_ok(uint8_t type, size_t n) {
 
 void harness(void) {
 	V_BEGIN();
+	for (size_t i = 0; i < PCAP; i++) pkt_store[i] = IN.dirty;	/* the library must not depend on a zeroed buffer (seeded change C15-radius-pw-padding-dropped) */
 	rad_pkt_hdr_p pkt = (rad_pkt_hdr_p)pkt_store;
 	static uint8_t key[KEYLEN + 1];
 	size_t sz = 777;
